@@ -9,6 +9,30 @@ V = os.path.dirname(os.path.dirname(os.path.abspath(__file__)))
 spec_path = sys.argv[1]
 sp = importlib.util.spec_from_file_location("spec", spec_path); m = importlib.util.module_from_spec(sp); sp.loader.exec_module(m)
 pid = m.PID
+# resolve bare lemma names ("name" or "Dir:name") to fully qualified ones by scanning the development
+import glob
+index = {}
+for f in glob.glob(os.path.join(V, "coq", "*", "*.v")):
+    d, b = f.split(os.sep)[-2], os.path.basename(f)[:-2]
+    if d in ("Properties", "Generated") or b == "Extract" or b.startswith("Dbg_") or b.startswith("Probe_"): continue
+    for mm in re.finditer(r"^\s*(?:Theorem|Lemma|Corollary|Fact)\s+([\w']+)", open(f).read(), re.M):
+        index.setdefault(mm.group(1), []).append("CC.%s.%s" % (d, b))
+def qualify(name):
+    if name.startswith("CC."): return name
+    hint = None
+    if ":" in name: hint, name = name.split(":")
+    cands = [c for c in index.get(name, []) if hint is None or ("." + hint + ".") in c + "."]
+    if len(cands) != 1:
+        print("cannot resolve lemma %r: candidates %s" % (name, index.get(name))); sys.exit(1)
+    return cands[0] + "." + name
+m.THEOREMS = [(n, qualify(l), c) for n, l, c in m.THEOREMS]
+mods = sorted({l.rsplit(".", 1)[0] for _, l, _ in m.THEOREMS})
+m.IMPORTS = m.IMPORTS.replace("@MODULES@", "From CC Require Import " + " ".join(x[3:] for x in mods) + ".")
+# build everything the probe imports (under the shared lock)
+targets = sorted(set(re.findall(r"\b((?:Base|Generated|Rbuf|SPool|DPool|Array|Deque|PQueue|Hash|Tst|Tree|List_|SList)\.\w+)", m.IMPORTS)))
+r = subprocess.run([os.path.join(V, "tools", "mk.sh")] + [t.replace(".", "/") + ".vo" for t in targets], capture_output=True, text=True)
+if r.returncode != 0:
+    print(r.stdout[-3000:]); sys.exit(1)
 probe = os.path.join(V, "coq", "Properties", "Probe_%s.v" % pid)
 with open(probe, "w") as f:
     f.write(m.IMPORTS + "\nSet Printing Depth 100000.\nSet Printing Width 110.\n")
@@ -22,16 +46,12 @@ try: os.unlink(os.path.join(V, "coq", "Properties", ".Probe_%s.aux" % pid))
 except OSError: pass
 if out.returncode != 0:
     print(out.stdout, out.stderr); sys.exit(1)
-# split the output into one block per Check: each starts with "<lemma>\n     : " 
+# split the output into one block per Check: each starts at column 0 with the (possibly qualified) lemma
+# name, followed by ": " on the same or the next line
 text = out.stdout
-blocks = []
-pos = 0
-for name, lemma, _ in m.THEOREMS:
-    short = lemma.split(".")[-1]
-    mm = re.compile(r"^%s\s*\n?\s*: " % re.escape(short), re.M).search(text, pos)
-    if not mm:
-        print("cannot find Check output for", lemma); print(text[pos:pos+500]); sys.exit(1)
-    blocks.append(mm)
+blocks = list(re.finditer(r"^[A-Za-z_][\w.']*[ \t]*\n?[ \t]+: ", text, re.M))
+if len(blocks) != len(m.THEOREMS):
+    print("expected %d Check outputs, found %d" % (len(m.THEOREMS), len(blocks))); print(text[:3000]); sys.exit(1)
 stmts = []
 for i, mm in enumerate(blocks):
     end = blocks[i + 1].start() if i + 1 < len(blocks) else len(text)
